@@ -25,3 +25,4 @@ macro_rules! with_n {
         }
     };
 }
+pub mod setsys;
